@@ -60,7 +60,7 @@ func segDist(px, py, ax, ay, bx, by float64) float64 {
 }
 
 func runC09Kernels(c *Ctx) {
-	inl := inlineAllGeom("geom.(XY).Sub", "geom.(XY).Add", "geom.(XY).Dot", "geom.(XY).Length", "geom.(XY).Scale", "geom.(XY).lengthSq", "geom.distBetweenXYs", "geom.fastMin", "geom.distBetweenXYAndLine")
+	inl := inlineAllGeom("geom.(XY).Sub", "geom.(XY).Add", "geom.(XY).Dot", "geom.(XY).Cross", "geom.(XY).Length", "geom.(XY).Scale", "geom.(XY).lengthSq", "geom.distBetweenXYs", "geom.fastMin", "geom.distBetweenXYAndLine")
 	f := c.P.Func("geom.distBetweenXYAndLine")
 	if f == nil {
 		c.Errorf("anchor distBetweenXYAndLine does not resolve")
